@@ -181,3 +181,298 @@ def mpas_dataset(mesh, withhold=(), edge_perm_seed=0, padding="zeros", radius=1.
         "edge_offset": edge_offset,
     }
     return ds, info
+
+
+# ----------------------------------------------------------------------------- shared helpers for C01/C07
+def wrap_lon(lon, lon360):
+    lon = np.asarray(lon, float)
+    if lon360:
+        return np.mod(lon, 360.0)
+    return lon
+
+
+def padded(rows, width, fill, dtype, start=0):
+    """Rows of indices -> 2-D array padded at the end with `fill` (may be NaN), indices shifted by `start`."""
+    dt = np.dtype(dtype)
+    arr = np.full((len(rows), width), fill, dtype=dt)
+    for i, r in enumerate(rows):
+        arr[i, : len(r)] = [v + start for v in r]
+    return arr
+
+
+def to_disk(ds, path):
+    """Write an in-memory source dataset to NetCDF the way such files are stored: a declared
+    _FillValue lives in the variable's encoding (so xarray's decoding turns it into NaN on read)."""
+    ds = ds.copy()
+    enc = {}
+    for name in list(ds.variables):
+        v = ds[name]
+        if "_FillValue" in v.attrs:
+            attrs = dict(v.attrs)
+            fv = attrs.pop("_FillValue")
+            ds[name] = xr.DataArray(v.values, dims=v.dims, attrs=attrs)
+            enc[name] = {"_FillValue": fv}
+        else:
+            enc[name] = {"_FillValue": None}
+    ds.to_netcdf(path, encoding=enc)
+    return path
+
+
+# ----------------------------------------------------------------------------- UGRID
+def ugrid_dataset(mesh, d):
+    """d: dialect dict with keys start_index (None/0/1), fill (None/int/'nan'), dtype, names (int), lon360,
+    face_coords (bool), extras (list of connectivity names), edge_seed, dim_attrs (bool)."""
+    faces, nodes = mesh["faces"], np.asarray(mesh["nodes"], float)
+    n_face, n_node = len(faces), len(nodes)
+    nm = d.get("names", 0)
+    P = ["", "Mesh2_", "m_"][nm % 3]
+    vn = {
+        "topo": P + ["grid_topology", "Mesh2", "mesh"][nm % 3],
+        "lon": P + ["node_lon", "node_x", "x"][nm % 3],
+        "lat": P + ["node_lat", "node_y", "y"][nm % 3],
+        "fn": P + ["face_node_connectivity", "face_nodes", "fn"][nm % 3],
+        "flon": P + ["face_lon", "face_x", "fx"][nm % 3],
+        "flat": P + ["face_lat", "face_y", "fy"][nm % 3],
+        "en": P + "edge_nodes",
+        "fe": P + "face_edges",
+        "ef": P + "edge_faces",
+        "ff": P + "face_links",
+        "dn": ["n_node", "nMesh2_node", "nn"][nm % 3],
+        "df": ["n_face", "nMesh2_face", "nf"][nm % 3],
+        "de": ["n_edge", "nMesh2_edge", "ne"][nm % 3],
+        "dm": ["n_max_face_nodes", "nMaxMesh2_face_nodes", "nmax"][nm % 3],
+    }
+    start = d.get("start_index")
+    s0 = 0 if start is None else start
+    width = max(len(f) for f in faces) + d.get("extra_cols", 0)
+    mixed = any(len(f) != width for f in faces)
+    fill = d.get("fill")
+    dtype = d.get("dtype", "int64")
+    if fill == "nan":
+        dtype = "float64"
+    if mixed and fill is None:
+        fill = -1
+    fv = np.nan if fill == "nan" else fill
+
+    def conn_var(rows, w, dims, cf_role):
+        arr = padded(rows, w, 0 if fv is None else fv, dtype, s0)
+        attrs = {"cf_role": cf_role}
+        if start is not None:
+            attrs["start_index"] = np.dtype("int32").type(start)
+        if fv is not None:
+            attrs["_FillValue"] = np.dtype(dtype).type(fv)
+        return xr.DataArray(arr, dims=dims, attrs=attrs)
+
+    ds = xr.Dataset()
+    lon = wrap_lon(nodes[:, 0], d.get("lon360", False))
+    ds[vn["lon"]] = xr.DataArray(lon, dims=[vn["dn"]], attrs={"standard_name": "longitude", "units": "degrees_east"})
+    ds[vn["lat"]] = xr.DataArray(nodes[:, 1].copy(), dims=[vn["dn"]], attrs={"standard_name": "latitude", "units": "degrees_north"})
+    ds[vn["fn"]] = conn_var(faces, width, [vn["df"], vn["dm"]], "face_node_connectivity")
+    topo = {
+        "cf_role": "mesh_topology",
+        "topology_dimension": np.int32(2),
+        "node_coordinates": f"{vn['lon']} {vn['lat']}",
+        "face_node_connectivity": vn["fn"],
+    }
+    if d.get("dim_attrs"):
+        topo["node_dimension"] = vn["dn"]
+        topo["face_dimension"] = vn["df"]
+    info = {}
+    if d.get("face_coords"):
+        c = face_centres_xyz(mesh)
+        flon, flat = lonlat_of(c, d.get("lon360", False))
+        ds[vn["flon"]] = xr.DataArray(flon, dims=[vn["df"]], attrs={"units": "degrees_east"})
+        ds[vn["flat"]] = xr.DataArray(flat, dims=[vn["df"]], attrs={"units": "degrees_north"})
+        topo["face_coordinates"] = f"{vn['flon']} {vn['flat']}"
+        info["xyz_c"] = c
+    extras = d.get("extras", [])
+    if extras:
+        edges = numbered_edges(mesh, d.get("edge_seed", 0))
+        eid = {refmodel.edge_key(a, b): k for k, (a, b) in enumerate(edges)}
+        ef = refmodel.edge_faces(faces)
+        info["edge_nodes"] = [list(e) for e in edges]
+        if "edge_node_connectivity" in extras:
+            ds[vn["en"]] = conn_var([list(e) for e in edges], 2, [vn["de"], "Two"], "edge_node_connectivity")
+            topo["edge_node_connectivity"] = vn["en"]
+            if d.get("dim_attrs"):
+                topo["edge_dimension"] = vn["de"]
+            if "face_edge_connectivity" in extras:
+                rows = [[eid[refmodel.edge_key(f[j], f[(j + 1) % len(f)])] for j in range(len(f))] for f in faces]
+                ds[vn["fe"]] = conn_var(rows, width, [vn["df"], vn["dm"]], "face_edge_connectivity")
+                topo["face_edge_connectivity"] = vn["fe"]
+                info["face_edges"] = rows
+            if "edge_face_connectivity" in extras and (fv is not None or all(len(ef[refmodel.edge_key(a, b)]) == 2 for a, b in edges)):
+                rows = [list(ef[refmodel.edge_key(a, b)]) for a, b in edges]
+                ds[vn["ef"]] = conn_var(rows, 2, [vn["de"], "Two"], "edge_face_connectivity")
+                topo["edge_face_connectivity"] = vn["ef"]
+                info["edge_faces"] = rows
+    ds[vn["topo"]] = xr.DataArray(np.int32(0), attrs=topo)
+    info["names"] = vn
+    return ds, info
+
+
+# ----------------------------------------------------------------------------- SCRIP
+def scrip_dataset(mesh, d):
+    faces, nodes = mesh["faces"], np.asarray(mesh["nodes"], float)
+    width = max(len(f) for f in faces)
+    lon = wrap_lon(nodes[:, 0], d.get("lon360", False))
+    clon = np.zeros((len(faces), width))
+    clat = np.zeros((len(faces), width))
+    for i, f in enumerate(faces):
+        idx = list(f) + [f[-1]] * (width - len(f))  # SCRIP pads by repeating the last corner
+        clon[i] = lon[idx]
+        clat[i] = nodes[idx, 1]
+    c = face_centres_xyz(mesh)
+    flon, flat = lonlat_of(c, d.get("lon360", False))
+    ds = xr.Dataset()
+    gs, gc = d.get("dims", ("grid_size", "grid_corners"))
+    ds["grid_corner_lat"] = xr.DataArray(clat, dims=[gs, gc], attrs={"units": "degrees"})
+    ds["grid_corner_lon"] = xr.DataArray(clon, dims=[gs, gc], attrs={"units": "degrees"})
+    ds["grid_center_lat"] = xr.DataArray(flat, dims=[gs], attrs={"units": "degrees"})
+    ds["grid_center_lon"] = xr.DataArray(flon, dims=[gs], attrs={"units": "degrees"})
+    ds["grid_area"] = xr.DataArray(face_areas(mesh), dims=[gs], attrs={"units": "radians^2"})
+    ds["grid_imask"] = xr.DataArray(np.ones(len(faces), dtype="int32"), dims=[gs])
+    ds["grid_dims"] = xr.DataArray(np.array([len(faces)], dtype="int32"), dims=["grid_rank"])
+    return ds, {"xyz_c": c, "areas": face_areas(mesh)}
+
+
+# ----------------------------------------------------------------------------- Exodus
+def exodus_dataset(mesh, d):
+    """d: coord ('coord' | 'xyz'), blocks ('one' | 'by-size'), dtype, radius."""
+    faces = mesh["faces"]
+    xyz = node_xyz(mesh) * d.get("radius", 1.0)
+    dt = np.dtype(d.get("dtype", "int32"))
+    ds = xr.Dataset()
+    if d.get("coord", "coord") == "coord":
+        ds["coord"] = xr.DataArray(xyz.T.copy(), dims=["num_dim", "num_nodes"])
+    else:
+        for k, nme in enumerate(("coordx", "coordy", "coordz")):
+            ds[nme] = xr.DataArray(xyz[:, k].copy(), dims=["num_nodes"])
+        ds["coor_names"] = xr.DataArray(np.array(["x", "y", "z"]), dims=["num_dim"])
+    order = []
+    if d.get("blocks", "one") == "one":
+        width = max(len(f) for f in faces)
+        arr = np.zeros((len(faces), width), dtype=dt)
+        for i, f in enumerate(faces):
+            arr[i, : len(f)] = [v + 1 for v in f]
+        ds["connect1"] = xr.DataArray(arr, dims=["num_el_in_blk1", "num_nod_per_el1"], attrs={"elem_type": "SHELL"})
+        order = list(range(len(faces)))
+    else:
+        sizes = sorted({len(f) for f in faces})
+        if d.get("blocks") == "by-size-desc":
+            sizes = sizes[::-1]
+        for b, s in enumerate(sizes, start=1):
+            ids = [i for i, f in enumerate(faces) if len(f) == s]
+            arr = np.array([[v + 1 for v in faces[i]] for i in ids], dtype=dt).reshape(len(ids), s)
+            ds[f"connect{b}"] = xr.DataArray(arr, dims=[f"num_el_in_blk{b}", f"num_nod_per_el{b}"], attrs={"elem_type": "SHELL"})
+            order += ids
+    return ds, {"face_order": order}
+
+
+# ----------------------------------------------------------------------------- ESMF
+def esmf_dataset(mesh, d):
+    faces, nodes = mesh["faces"], np.asarray(mesh["nodes"], float)
+    width = max(len(f) for f in faces) + d.get("extra_cols", 0)
+    start = d.get("start_index")  # None -> attribute absent -> 1-based
+    s0 = 1 if start is None else start
+    pad = d.get("pad", -1)
+    dt = np.dtype(d.get("dtype", "int32"))
+    arr = np.full((len(faces), width), pad, dtype=dt)
+    for i, f in enumerate(faces):
+        arr[i, : len(f)] = [v + s0 for v in f]
+    lon = wrap_lon(nodes[:, 0], d.get("lon360", True))
+    ds = xr.Dataset()
+    ds["nodeCoords"] = xr.DataArray(np.stack([lon, nodes[:, 1]], axis=1), dims=["nodeCount", "coordDim"], attrs={"units": "degrees"})
+    attrs = {"long_name": "Node indices that define the element connectivity"}
+    if start is not None:
+        attrs["start_index"] = np.int32(start)
+    ds["elementConn"] = xr.DataArray(arr, dims=["elementCount", "maxNodePElement"], attrs=attrs)
+    ds["numElementConn"] = xr.DataArray(np.array([len(f) for f in faces], dtype="int8" if d.get("byte_counts") else "int32"), dims=["elementCount"])
+    info = {}
+    if d.get("centers", True):
+        c = face_centres_xyz(mesh)
+        flon, flat = lonlat_of(c, d.get("lon360", True))
+        ds["centerCoords"] = xr.DataArray(np.stack([flon, flat], axis=1), dims=["elementCount", "coordDim"], attrs={"units": "degrees"})
+        info["xyz_c"] = c
+    return ds, info
+
+
+# ----------------------------------------------------------------------------- GEOS-CS
+def geos_dataset(n, d):
+    """Cubed sphere with n x n cells per panel as GEOS corner arrays.  Returns (ds, expected faces as lon/lat lists, centres)."""
+    ang = [math.tan(-math.pi / 4 + (math.pi / 2) * i / n) for i in range(n + 1)]
+    panels = [
+        ((1, 0, 0), (0, 1, 0), (0, 0, 1)),
+        ((0, 1, 0), (-1, 0, 0), (0, 0, 1)),
+        ((-1, 0, 0), (0, -1, 0), (0, 0, 1)),
+        ((0, -1, 0), (1, 0, 0), (0, 0, 1)),
+        ((0, 0, 1), (0, 1, 0), (-1, 0, 0)),
+        ((0, 0, -1), (0, 1, 0), (1, 0, 0)),
+    ]
+    clon = np.zeros((6, n + 1, n + 1))
+    clat = np.zeros((6, n + 1, n + 1))
+    P = np.zeros((6, n + 1, n + 1, 3))
+    for f, (o, u, v) in enumerate(panels):
+        for i in range(n + 1):
+            for j in range(n + 1):
+                p = S.normalize(tuple(o[k] + ang[j] * u[k] + ang[i] * v[k] for k in range(3)))
+                P[f, i, j] = p
+                lo, la = S.xyz2ll(p)
+                clon[f, i, j] = lo % 360.0 if d.get("lon360", True) else lo
+                clat[f, i, j] = la
+    faces, centres = [], []
+    for f in range(6):
+        for i in range(n):
+            for j in range(n):
+                cs = [P[f, i + 1, j + 1], P[f, i + 1, j], P[f, i, j], P[f, i, j + 1]]
+                faces.append([tuple(c) for c in cs])
+                m = np.mean(cs, axis=0)
+                centres.append(tuple(m / np.linalg.norm(m)))
+    ds = xr.Dataset()
+    ds["corner_lons"] = xr.DataArray(clon, dims=["nf", "YCdim", "XCdim"])
+    ds["corner_lats"] = xr.DataArray(clat, dims=["nf", "YCdim", "XCdim"])
+    info = {}
+    if d.get("centers", True):
+        c = np.array(centres)
+        lo, la = lonlat_of(c, d.get("lon360", True))
+        ds["lons"] = xr.DataArray(lo.reshape(6, n, n), dims=["nf", "Ydim", "Xdim"])
+        ds["lats"] = xr.DataArray(la.reshape(6, n, n), dims=["nf", "Ydim", "Xdim"])
+        info["xyz_c"] = c
+    return ds, faces, info
+
+
+# ----------------------------------------------------------------------------- ICON (triangulations)
+def icon_dataset(mesh, d):
+    faces, nodes = mesh["faces"], np.asarray(mesh["nodes"], float)
+    assert all(len(f) == 3 for f in faces)
+    dt = np.dtype(d.get("dtype", "int32"))
+    edges = numbered_edges(mesh, d.get("edge_seed", 0))
+    eid = {refmodel.edge_key(a, b): k for k, (a, b) in enumerate(edges)}
+    ef = refmodel.edge_faces(faces)
+    xyz = node_xyz(mesh)
+    c = face_centres_xyz(mesh)
+    e_xyz = np.array([S.arc_midpoint(tuple(xyz[a]), tuple(xyz[b])) for a, b in edges])
+    ds = xr.Dataset()
+    ds["vlon"] = xr.DataArray(np.radians(nodes[:, 0]), dims=["vertex"])
+    ds["vlat"] = xr.DataArray(np.radians(nodes[:, 1]), dims=["vertex"])
+    clo, cla = lonlat_of(c)
+    elo, ela = lonlat_of(e_xyz)
+    ds["clon"] = xr.DataArray(np.radians(clo), dims=["cell"])
+    ds["clat"] = xr.DataArray(np.radians(cla), dims=["cell"])
+    ds["elon"] = xr.DataArray(np.radians(elo), dims=["edge"])
+    ds["elat"] = xr.DataArray(np.radians(ela), dims=["edge"])
+    ds["vertex_of_cell"] = xr.DataArray(np.array(faces, dtype=dt).T + dt.type(1), dims=["nv", "cell"])
+    fe = [[eid[refmodel.edge_key(f[j], f[(j + 1) % 3])] for j in range(3)] for f in faces]
+    ds["edge_of_cell"] = xr.DataArray(np.array(fe, dtype=dt).T + dt.type(1), dims=["nv", "cell"])
+    nb = []
+    for fi, f in enumerate(faces):
+        row = []
+        for j in range(3):
+            other = [x for x in ef[refmodel.edge_key(f[j], f[(j + 1) % 3])] if x != fi]
+            row.append(other[0] if other else -1)
+        nb.append(row)
+    ds["neighbor_cell_index"] = xr.DataArray(np.array(nb, dtype=dt).T + dt.type(1), dims=["nv", "cell"])
+    ec = [list(ef[refmodel.edge_key(a, b)]) for a, b in edges]
+    ds["adjacent_cell_of_edge"] = xr.DataArray(np.array(ec, dtype=dt).T + dt.type(1), dims=["nc", "edge"])
+    ds["edge_vertices"] = xr.DataArray(np.array([list(e) for e in edges], dtype=dt).T + dt.type(1), dims=["nc", "edge"])
+    return ds, {"edge_nodes": [list(e) for e in edges], "face_edges": fe, "edge_faces": ec, "neighbours": nb, "xyz_c": c, "xyz_e": e_xyz}
